@@ -7,6 +7,9 @@ every element is an example of the selected split (id and content);
 unshuffled: prefix[i] == one_pass[i mod N] where one_pass is the same
 interface's repeat=False pass; Rust interface (shuffled or not): every
 consecutive block of N ids is a permutation of the split.
+Stage ``long``: the same oracle on a tiny split (1..3 examples) consumed for
+1200 (thorough: up to 6000) epochs -- anything that accumulates per epoch
+(nesting depth, open files, threads) ends an "endless" stream only there.
 """
 from __future__ import annotations
 
@@ -65,7 +68,48 @@ def strategy_case(draw, tier):
                 "pattern": st.lists(st.integers(0, 1), min_size=6,
                                     max_size=60),
             })))
-    return {"desc": desc, "ops": ops, "reads": reads, "pair": pair}
+    reent = draw(
+        st.one_of(
+            st.none(),
+            st.fixed_dictionaries({
+                "split": st.integers(0, 2),
+                "fp": st.integers(1, 3),
+                "k1": st.integers(0, 9),
+                "k2": st.integers(0, 9),
+                "finalise": st.sampled_from(["close", "del", "keep"]),
+            })))
+    return {"desc": desc, "ops": ops, "reads": reads, "pair": pair,
+            "reent": reent}
+
+
+@st.composite
+def strategy_long(draw, tier):
+    """"Forever": a tiny split consumed for very many epochs (what a small
+    hold-out split sees during a long training run).  Same case format and
+    oracle as `repeat`; one read per applicable interface."""
+    # (not tfrec: its Python readers need 50 ms to open one shard, i.e.
+    # minutes per stream of this length)
+    desc = draw(iter_common.st_iter_desc(tier, formats=["fb"] * 5 + ["npz"] * 2,
+                                         eps=st.integers(1, 2)))
+    n = draw(st.integers(1, 3))
+    epochs = 1200 if tier == "quick" else draw(
+        st.sampled_from([1200, 2500, 6000]))
+    ops = [{"k": "filler", "dir": {"rel": "root", "pick": 0},
+            "runs": [[0, n, 0, None]], "reopen": False}]
+    n_if = len([i for i in dsops.INTERFACES
+                if dsops.interface_applicable(i, desc)])
+    first = draw(st.integers(0, 9))
+    reads = [{
+        "iface": first + k,
+        "split": 0,
+        "shuffle": draw(st.sampled_from([0, 0, 2])),
+        "fp": ["abs", draw(st.integers(1, 2))],
+        "m": epochs,
+        "r": draw(st.integers(0, 2)),
+        "default_repeat": draw(st.booleans()),
+        "batch": draw(st.sampled_from([0, 0, 3])),
+    } for k in range(n_if if tier == "thorough" else min(n_if, 2))]
+    return {"desc": desc, "ops": ops, "reads": reads, "pair": None}
 
 
 def run_case(case, ctx):
@@ -164,7 +208,11 @@ def run_case(case, ctx):
             ctx.count("prefixes")
             ctx.evaluated()
             ctx.label("iface=" + iface)
-            if s >= 2:
+            if r["m"] >= 1000:
+                ctx.label("epochs>=1000")
+                ctx.nontrivial([iface, "long", n, s, shuffle, r["m"],
+                                desc["fmt"]])
+            elif s >= 2:
                 ctx.nontrivial([
                     iface,
                     min(s, 8), "0" if shuffle == 0 else
@@ -231,11 +279,90 @@ def run_case(case, ctx):
                     close = getattr(st_["it"], "close", None)
                     if close:
                         close()
+        reentrant_generator(case, ctx, b)
     finally:
         b.cleanup()
 
 
+def reentrant_generator(case, ctx, b):
+    """RustGenerator is documented as re-entrant for
+    tf.data.Dataset.from_generator, which calls it again without exhausting
+    (or closing) the iterable of the previous call and drops that one at some
+    later moment.  The stream of the second call must still be the one-pass
+    sequence repeated periodically (from whatever offset it starts at)."""
+    import gc
+    desc, reent = b.desc, case.get("reent")
+    if reent is None or not dsops.interface_applicable("rust", desc):
+        return
+    split = b.split_for(reent["split"])
+    n = b.n_examples(split)
+    if not 0 < n <= 60:
+        return
+    from sedpack.io.dataset_iteration import RustGenerator
+    one = [dsops.ex_id_of(e) for e in dsops.read_all(
+        b.h.ds, split, "rust", shuffle=0, repeat=False,
+        file_parallelism=reent["fp"])]
+    if len(one) != n:
+        return  # C02's business
+    what = (f"RustGenerator re-entered: split={split} N={n} first call "
+            f"consumed {reent['k1']}, second {reent['k2']}, then the first "
+            f"is finalised ({reent['finalise']}), file_parallelism="
+            f"{reent['fp']}")
+    want_len = 3 * n + 2
+
+    def scenario():
+        ids = []
+        with RustGenerator(dataset=b.h.ds, split=split, repeat=True,
+                           shuffle=0, file_parallelism=reent["fp"]) as gen:
+            g1 = iter(gen())
+            for _ in range(reent["k1"]):
+                next(g1)
+            g2 = iter(gen())
+            for _ in range(min(reent["k2"], want_len)):
+                ids.append(dsops.ex_id_of(next(g2)))
+            if reent["finalise"] == "close":
+                g1.close()
+            elif reent["finalise"] == "del":
+                del g1
+                gc.collect()
+            while len(ids) < want_len:
+                ids.append(dsops.ex_id_of(next(g2)))
+            g2.close()
+        return ids
+
+    ok, ids = oracles.guarded(ctx, "endless", ("reentrant-generator-raised",),
+                              what, scenario)
+    if not ok:
+        return
+    if not any(all(ids[i] == one[(off + i) % n] for i in range(len(ids)))
+               for off in range(n)):
+        ctx.fail("periodic", ("reentrant-generator-not-periodic",),
+                 f"{what}: the second call yields {ids}, one pass is {one}")
+    ctx.label("reentrant-generator")
+    ctx.evaluated()
+    ctx.nontrivial(["reent", min(n, 9), reent["k1"] % n, reent["k2"] % n,
+                    reent["finalise"]])
+
+
+def _stalls(case):
+    return ("endless", ("stream-stalls",),
+            f"a repeating stream stopped delivering examples (no result "
+            f"within the watchdog): desc={case['desc']['fmt']} ops="
+            f"{case['ops']} reads={case['reads']}")
+
+
 STAGES = [
+    Stage(name="long",
+          run=run_case,
+          strategy=lambda tier: strategy_long(tier),
+          examples={
+              "quick": 32,
+              "thorough": 600
+          },
+          fork=True,
+          rust=True,
+          timeout=300,
+          timeout_violation=_stalls),
     Stage(name="repeat",
           run=run_case,
           strategy=lambda tier: strategy_case(tier),
